@@ -395,6 +395,46 @@ int run_one(const std::string& op, const std::string& si, const std::string& sj)
   return 0;
 }
 
+// ---- Linear_Form<Interval<double,...>>: operator+, operator-, operator*(C, f) against the list model
+template <typename ITV>
+std::string show_lf(const Linear_Form<ITV>& f) {
+  std::string s = show_itv(f.inhomogeneous_term());
+  for (dimension_type i = 0; i < f.space_dimension(); ++i) s += ";" + show_itv(f.coefficient(Variable(i)));
+  return s;
+}
+template <typename ITV>
+Linear_Form<ITV> random_lf(pplv::Rng& r) {
+  unsigned n = r.below(4);                       // 0..3 variables
+  ITV c0;
+  do { c0 = random_itv<ITV>(r); } while (c0.is_empty());
+  Linear_Form<ITV> f(c0);
+  for (unsigned i = 0; i < n; ++i) {
+    ITV c;
+    do { c = random_itv<ITV>(r); } while (c.is_empty());
+    ITV one = make_raw<ITV, typename ITV::boundary_type>(false, false, Tr<ITV>::conv(1), false, false, Tr<ITV>::conv(1), false);
+    Linear_Form<ITV> v = Linear_Form<ITV>(Variable(i));
+    // the coefficient of Variable(i) is set through the public interface: v has coefficient [1,1]
+    Linear_Form<ITV> t(v);
+    t *= c;                                       // [1,1]*c = c exactly
+    f += t;
+  }
+  return f;
+}
+template <typename ITV>
+void run_lf(long seed, long n) {
+  Out o((std::string(Tr<ITV>::name())).c_str(), "");
+  o.ty = Tr<ITV>::name();
+  o.n = 900000000;                               // ids disjoint from those of run_type
+  pplv::Rng rng((uint64_t)seed * 104729u + 17u);
+  for (long k = 0; k < n; ++k) {
+    Linear_Form<ITV> f = random_lf<ITV>(rng), g = random_lf<ITV>(rng);
+    ITV c; do { c = random_itv<ITV>(rng); } while (c.is_empty());
+    { Linear_Form<ITV> r = f + g; o.ev("lf:add", show_lf(f), show_lf(g), show_lf(r), r.OK()); }
+    { Linear_Form<ITV> r = f - g; o.ev("lf:sub", show_lf(f), show_lf(g), show_lf(r), r.OK()); }
+    { Linear_Form<ITV> r = c * f; o.ev("lf:scale", show_lf(f), show_itv(c), show_lf(r), r.OK()); }
+  }
+}
+
 // measure defects 3 and 12 on the library as it is now
 static void probes() {
   pplv::Journal J(1);
@@ -446,6 +486,7 @@ int main(int argc, char** argv) {
     if (b == 3 && strchr(types, 'D')) {
       v = {mpq_class(-3), mpq_class(-0.1), mpq_class(0), mpq_class(1.0 / 3.0), mpq_class(2)};
       run_type<DI>(v, seed, nrandom, only, false);
+      if (!only || !*only) run_lf<DI>(seed, nrandom / 2);
     }
     if (b == 4 && strchr(types, 'F')) {
       v = {mpq_class(-3), mpq_class(-0.1f), mpq_class(0), mpq_class(1.0f / 3.0f), mpq_class(2)};
